@@ -3,7 +3,7 @@
    This file contains only statements, `exact` proofs and Print Assumptions. *)
 From Coq Require Import ZArith List Bool.
 From ScV Require Import Base.CInt Gen.Uint128 Gen.Search Gen.Macros Gen.Functions.
-From ScV Require Import C18.Uint128Proofs C18.SearchProofs C18.MacroProofs C18.PowProofs C18.Uint128Laws.
+From ScV Require Import C18.Uint128Proofs C18.SearchProofs C18.MacroProofs C18.PowProofs C18.Uint128Laws C18.HelperLaws.
 Local Open Scope Z_scope.
 
 (* --- 128-bit arithmetic = arithmetic modulo 2^128 ------------------------ *)
@@ -372,3 +372,88 @@ Theorem C18_law_add_wraps_iff : forall ah al bh bl rh rl,
   sc_uint128_compare (fst s) (snd s) ah al = -1 <-> 2 ^ 128 <= val128 (ah, al) + val128 (bh, bl).
 Proof. exact add_wraps_iff. Qed.
 Print Assumptions C18_law_add_wraps_iff.
+
+(* --- laws of repeated / composed helper calls (C18/HelperLaws.v) ------------------------------ *)
+Theorem C18_law_roundup2_32_laws : (forall x, 0 < x <= 2 ^ 30 -> w_sc_roundup2_32 (w_sc_roundup2_32 x) = w_sc_roundup2_32 x) /\
+  (forall x y, 0 < x -> x <= y -> y <= 2 ^ 30 -> w_sc_roundup2_32 x <= w_sc_roundup2_32 y) /\
+  (forall x, 0 < x <= 2 ^ 30 -> w_sc_roundup2_32 x < 2 * x) /\
+  (forall k, 0 <= k <= 30 -> w_sc_roundup2_32 (2 ^ k) = 2 ^ k).
+Proof. exact roundup2_32_laws. Qed.
+Print Assumptions C18_law_roundup2_32_laws.
+
+Theorem C18_law_roundup2_64_laws : (forall x, 0 < x <= 2 ^ 62 -> w_sc_roundup2_64 (w_sc_roundup2_64 x) = w_sc_roundup2_64 x) /\
+  (forall x y, 0 < x -> x <= y -> y <= 2 ^ 62 -> w_sc_roundup2_64 x <= w_sc_roundup2_64 y) /\
+  (forall x, 0 < x <= 2 ^ 62 -> w_sc_roundup2_64 x < 2 * x) /\
+  (forall k, 0 <= k <= 62 -> w_sc_roundup2_64 (2 ^ k) = 2 ^ k).
+Proof. exact roundup2_64_laws. Qed.
+Print Assumptions C18_law_roundup2_64_laws.
+
+Theorem C18_law_log2_of_roundup2_32 : forall x,
+  0 < x <= 2 ^ 30 ->
+  2 ^ w_sc_log2_32 (w_sc_roundup2_32 x) = w_sc_roundup2_32 x.
+Proof. exact log2_of_roundup2_32. Qed.
+Print Assumptions C18_law_log2_of_roundup2_32.
+
+Theorem C18_law_log2_of_roundup2_64 : forall x,
+  0 < x <= 2 ^ 62 ->
+  2 ^ w_sc_log2_64 (w_sc_roundup2_64 x) = w_sc_roundup2_64 x.
+Proof. exact log2_of_roundup2_64. Qed.
+Print Assumptions C18_law_log2_of_roundup2_64.
+
+Theorem C18_law_log2_variants_agree : forall x,
+  0 < x < 2 ^ 31 ->
+  w_sc_log2_32 x = w_sc_log2_32u x /\ w_sc_log2_32 x = w_sc_log2_64 x /\ w_sc_log2_32 x = w_sc_log2_64u x.
+Proof. exact log2_variants_agree. Qed.
+Print Assumptions C18_law_log2_variants_agree.
+
+Theorem C18_law_log2_64u_monotone : forall x y,
+  0 < x -> x <= y -> y < 2 ^ 64 -> w_sc_log2_64u x <= w_sc_log2_64u y.
+Proof. exact log2_64u_monotone. Qed.
+Print Assumptions C18_law_log2_64u_monotone.
+
+Theorem C18_law_lower_bound_guess_independent : forall a n t g1 g2 fuel r1 r2,
+  sorted_upto a n -> 0 <= n <= 2 ^ 63 -> (n = 0 \/ 0 <= g1 < n) -> (n = 0 \/ 0 <= g2 < n) -> (Z.to_nat n <= fuel)%nat ->
+  sc_search_lower_bound64 fuel t a n g1 = Some r1 -> sc_search_lower_bound64 fuel t a n g2 = Some r2 -> r1 = r2.
+Proof. exact lower_bound_guess_independent. Qed.
+Print Assumptions C18_law_lower_bound_guess_independent.
+
+Theorem C18_law_lower_bound_monotone : forall a n t1 t2 g1 g2 fuel,
+  sorted_upto a n -> 0 <= n <= 2 ^ 63 -> (n = 0 \/ 0 <= g1 < n) -> (n = 0 \/ 0 <= g2 < n) -> (Z.to_nat n <= fuel)%nat ->
+  t1 <= t2 ->
+  exists r1 r2, sc_search_lower_bound64 fuel t1 a n g1 = Some r1 /\ sc_search_lower_bound64 fuel t2 a n g2 = Some r2 /\
+                (r2 = -1 \/ (0 <= r1 /\ r1 <= r2)).
+Proof. exact lower_bound_monotone. Qed.
+Print Assumptions C18_law_lower_bound_monotone.
+
+Theorem C18_law_lower_bound_finds_member : forall a n t g fuel k,
+  sorted_upto a n -> 0 <= n <= 2 ^ 63 -> (n = 0 \/ 0 <= g < n) -> (Z.to_nat n <= fuel)%nat ->
+  0 <= k < n -> a k = t ->
+  exists r, sc_search_lower_bound64 fuel t a n g = Some r /\ 0 <= r <= k /\ a r = t.
+Proof. exact lower_bound_finds_member. Qed.
+Print Assumptions C18_law_lower_bound_finds_member.
+
+Theorem C18_law_bias_in_range : forall m l i t,
+  0 <= l <= m -> m < 31 -> 0 <= i < 2 ^ l -> 0 <= t < 2 ^ m ->
+  0 <= sc_search_bias m l i t < 2 ^ m.
+Proof. exact bias_in_range. Qed.
+Print Assumptions C18_law_bias_in_range.
+
+Theorem C18_law_bias_idempotent : forall m l i t,
+  0 <= l <= m -> m < 31 -> 0 <= i < 2 ^ l -> 0 <= t < 2 ^ m ->
+  sc_search_bias m l i (sc_search_bias m l i t) = sc_search_bias m l i t.
+Proof. exact bias_idempotent. Qed.
+Print Assumptions C18_law_bias_idempotent.
+
+Theorem C18_law_intpow_add : forall b e1 e2 fuel,
+  in_s32 b -> 0 <= e1 -> 0 <= e2 -> e1 + e2 < 2 ^ 31 -> (32 <= fuel)%nat ->
+  exists v1 v2, sc_intpow fuel b e1 = Some v1 /\ sc_intpow fuel b e2 = Some v2 /\
+                sc_intpow fuel b (e1 + e2) = Some (s32 (v1 * v2)).
+Proof. exact intpow_add. Qed.
+Print Assumptions C18_law_intpow_add.
+
+Theorem C18_law_intpow64u_add : forall b e1 e2 fuel,
+  in_u64 b -> 0 <= e1 -> 0 <= e2 -> e1 + e2 < 2 ^ 31 -> (32 <= fuel)%nat ->
+  exists v1 v2, sc_intpow64u fuel b e1 = Some v1 /\ sc_intpow64u fuel b e2 = Some v2 /\
+                sc_intpow64u fuel b (e1 + e2) = Some (u64 (v1 * v2)).
+Proof. exact intpow64u_add. Qed.
+Print Assumptions C18_law_intpow64u_add.
